@@ -136,7 +136,21 @@ def run_selftest(prop: str, seed: int = 0) -> dict:
 
     # each edit is judged under the property being checked (its other properties are
     # exercised by their own thorough runs)
-    edits = [dict(e, props=[prop]) for e in CORPUS if prop in e["props"]]
+    # A mutant lists every property the edit would break; it belongs to this property's
+    # corpus only when the rule that owns it (or an `also` rule) is registered for the
+    # property — decided here from the registry, before anything is run.
+    from . import rules as _r  # noqa: F401
+    from .runner import RULES
+
+    def mine(e) -> bool:
+        if prop not in e["props"]:
+            return False
+        if e["kind"] != "mutant" or not e.get("rule"):
+            return True
+        owners = (e["rule"],) + tuple(e.get("also", ()))
+        return any(o in RULES and prop in RULES[o].props for o in owners)
+
+    edits = [dict(e, props=[prop]) for e in CORPUS if mine(e)]
     if not edits:
         return {"mutants": 0, "benign": 0, "note": "no corpus entries for this property"}
     # known findings are violations on the base tree too; the corpus only counts *new* ones,
